@@ -425,14 +425,35 @@ func ruleClearDeadline(c *Ctx) {
 		}
 		return false
 	}
-	isClear := func(ins ssa.Instruction) bool {
-		dc, ok := ins.(*ssa.Call)
-		if !ok || eng.MethodName(&dc.Call) != "SetReadDeadline" {
-			return false
+	// deadline calls on the client connection: kind "r"/"w", zero = clears
+	deadlineCall := func(ins ssa.Instruction) (kinds string, zero, ok bool) {
+		dc, isC := ins.(*ssa.Call)
+		if !isC {
+			return
+		}
+		switch eng.MethodName(&dc.Call) {
+		case "SetReadDeadline":
+			kinds = "r"
+		case "SetWriteDeadline":
+			kinds = "w"
+		case "SetDeadline":
+			kinds = "rw"
+		default:
+			return
+		}
+		if !a.sameConn(c, eng.Receiver(&dc.Call)) {
+			return "", false, false
 		}
 		arg := eng.Arg(&dc.Call, 0)
-		return (eng.IsZeroValue(p.Resolve(arg)) || isZeroStructLoad(p, arg)) && a.sameConn(c, eng.Receiver(&dc.Call))
+		return kinds, eng.IsZeroValue(p.Resolve(arg)) || isZeroStructLoad(p, arg), true
 	}
+	clears := func(kind string) func(ssa.Instruction) bool {
+		return func(ins ssa.Instruction) bool {
+			k, zero, ok := deadlineCall(ins)
+			return ok && zero && strings.Contains(k, kind)
+		}
+	}
+	isClear := clears("r")
 	n := 0
 	for _, cl := range reg.Calls() {
 		if isRelay(cl) {
@@ -442,6 +463,30 @@ func ruleClearDeadline(c *Ctx) {
 	if c.Floor("DEADLINE", "relay calls in the handler's region", n, 1) {
 		ok, bad := reg.BeforeDeep(isClear, isRelay)
 		c.Check("DEADLINE", short(h)+":deadline-cleared-before-relay", p.Pos(h.Pos()), ok, fmt.Sprintf("the relay can start (%s) with the handshake read deadline still set on the client connection: long-lived connections are cut when it fires", p.IPos(bad)))
+		// a write deadline armed for the handshake (SetDeadline arms both directions) must be cleared as well
+		var armsWrite ssa.Instruction
+		for _, cl := range reg.Calls() {
+			if k, zero, ok := deadlineCall(cl); ok && !zero && strings.Contains(k, "w") {
+				// only a handshake-relative deadline (derived from time.Now) is meant to end with the handshake; the
+				// context's own deadline legitimately stays on the connection
+				arg := eng.Arg(&cl.(*ssa.Call).Call, 0)
+				if p.AnyFrom(arg, eng.OriginOpts{ThroughConvert: true, Interproc: true, ThroughCalls: func(cc *ssa.Call) []ssa.Value {
+					if eng.CalleeName(&cc.Call) == "(time.Time).Add" {
+						return cc.Call.Args
+					}
+					return nil
+				}}, func(v ssa.Value) bool {
+					cc, _, isR := eng.AsResult(v)
+					return isR && eng.CalleeName(&cc.Call) == "time.Now"
+				}) {
+					armsWrite = cl
+				}
+			}
+		}
+		if armsWrite != nil {
+			ok, bad := reg.BeforeDeep(clears("w"), isRelay)
+			c.CheckAt("DEADLINE", short(h)+":write-deadline-cleared-before-relay", armsWrite, ok, fmt.Sprintf("the handshake arms a write deadline on the client connection that is still set when the relay starts (%s): the first write to the client after it fires fails and the target's stream is cut short", p.IPos(bad)))
+		}
 	}
 }
 
